@@ -4,7 +4,7 @@
 //!
 //! Protocol (one case = one `begin` line followed by operations), see lean/Driver/C10.lean:
 //!   begin mem max=<n> bytes=<n>|none policy=lru|lfu|fifo|random|ttl dttl=long|short
-//!   begin disk dttl=long|short
+//!   begin disk dttl=long|short [sub=<levels 1..7>]   (sub= : hashed sub-directory layout; absent = flat)
 //!   put <key> <hex> ev=…   putttl <key> <hex> long|short ev=…   get|contains|remove <key>
 //!   clear   size   stats   reopen   cleanup (memc / diskc only)
 //!   begin diskc … = DiskCache::new_with_background_tasks (cleanup_interval 2 ms, sync_interval 1 h).
@@ -20,12 +20,25 @@
 //! broken by DashMap iteration order) and Random the victims actually chosen are observed with
 //! side-effect-free `contains` probes and written on the request line (`ev=k1,k2`), and the
 //! model checks that the choice is one the policy allows.
+//!
+//! Keys: a protocol key is a number; `key(n)` is one fixed global map from numbers to `RibbitKey`s
+//! (so a replay needs nothing but the request lines).  Numbers below 1000 are plain keys
+//! (`ribbit:us:k<n>` / `ribbit:eu:wow:e<n>`); numbers from 1000 on are members of NEAR-COLLISION
+//! FAMILIES (`families()`): keys that are different keys — different fields, different
+//! `as_cache_key()` text — but differ only in a separator / field boundary, punctuation, blanks,
+//! letter case, a Unicode look-alike or normalisation form, a path separator, or far into a very
+//! long name.  The model knows keys only as numbers (the reference map is keyed by exact key), so
+//! any confusion of two such keys inside a cache shows as another key's value / a lost value / a
+//! drifted counter.  Every generated history with two or more keys draws at least two keys of one
+//! family; directed walks put, read, remove, re-create and clear every family as a whole on the
+//! memory cache and on every disk layout.
 use bytes::Bytes;
 use cascette_cache::config::{DiskCacheConfig, MemoryCacheConfig};
 use cascette_cache::key::RibbitKey;
 use cascette_cache::traits::{AsyncCache, EvictionPolicy};
 use cascette_cache::{DiskCache, MemoryCache};
 use std::collections::{BTreeMap, BTreeSet};
+use std::sync::OnceLock;
 use std::time::{Duration, Instant, SystemTime};
 use verif_harness::*;
 
@@ -57,6 +70,11 @@ struct Cfg {
     dshort: bool,
     /// `new_with_cleanup` instead of `new` (memory cache only)
     cleanup: bool,
+    /// disk cache: `Some(levels)` = hashed sub-directories, `None` = flat directory
+    sub: Option<usize>,
+    /// disk cache: the keys of this history whose file the file system refuses to create
+    /// (`!disk_ok`); information for the model, the real put is issued like any other
+    refuse: Vec<usize>,
 }
 
 fn pol_name(p: &EvictionPolicy) -> &'static str {
@@ -73,7 +91,9 @@ impl Cfg {
     fn line(&self) -> String {
         let d = if self.dshort { "short" } else { "long" };
         if self.disk {
-            format!("begin {} dttl={d}", if self.cleanup { "diskc" } else { "disk" })
+            let sub = self.sub.map_or(String::new(), |l| format!(" sub={l}"));
+            let rf = if self.refuse.is_empty() { String::new() } else { format!(" refuse={}", self.refuse.iter().map(|k| k.to_string()).collect::<Vec<_>>().join(",")) };
+            format!("begin {} dttl={d}{sub}{rf}", if self.cleanup { "diskc" } else { "disk" })
         } else {
             let b = self.bytes.map_or("none".to_string(), |b| b.to_string());
             format!("begin {} max={} bytes={} policy={} dttl={}", if self.cleanup { "memc" } else { "mem" }, self.max, b, pol_name(&self.policy), d)
@@ -95,11 +115,22 @@ impl Cfg {
                     _ => return None,
                 };
                 let dshort = match kv(dt, "dttl=")?.as_str() { "short" => true, "long" => false, _ => return None };
-                Some(Cfg { disk: false, max, bytes, policy, dshort, cleanup: *m == "memc" })
+                Some(Cfg { disk: false, max, bytes, policy, dshort, cleanup: *m == "memc", sub: None, refuse: vec![] })
             }
-            ["begin", m @ ("disk" | "diskc"), dt] => {
+            ["begin", m @ ("disk" | "diskc"), dt, rest @ ..] if rest.len() <= 2 => {
+                // canonical decimals only; levels 1..=7 (a level >= 8 would shift the 64-bit hash out)
+                let num = |v: &str| -> Option<usize> { v.parse::<usize>().ok().filter(|l| l.to_string() == v) };
+                let p_sub = |t: &str| -> Option<usize> { num(&kv(t, "sub=")?).filter(|l| (1..=7).contains(l)) };
+                let p_ref = |t: &str| -> Option<Vec<usize>> { kv(t, "refuse=")?.split(',').map(num).collect() };
+                let (sub, refuse) = match rest {
+                    [] => (None, vec![]),
+                    [t] if t.starts_with("sub=") => (Some(p_sub(t)?), vec![]),
+                    [t] => (None, p_ref(t)?),
+                    [t, u] => (Some(p_sub(t)?), p_ref(u)?),
+                    _ => return None,
+                };
                 let dshort = match kv(dt, "dttl=")?.as_str() { "short" => true, "long" => false, _ => return None };
-                Some(Cfg { disk: true, max: 0, bytes: None, policy: EvictionPolicy::Lru, dshort, cleanup: *m == "diskc" })
+                Some(Cfg { disk: true, max: 0, bytes: None, policy: EvictionPolicy::Lru, dshort, cleanup: *m == "diskc", sub, refuse })
             }
             _ => None,
         }
@@ -125,8 +156,208 @@ fn parse_op(line: &str) -> Op {
     r.unwrap_or_else(|| Op::Raw(line.to_string()))
 }
 
+// ---- the key universe ------------------------------------------------------------------------
+
+/// (endpoint, region, product)
+type KeySpec = (String, String, Option<String>);
+
+struct Family {
+    name: &'static str,
+    members: Vec<KeySpec>,
+}
+
+/// key numbers `FAM_BASE + FAM_STRIDE * family + member`
+const FAM_BASE: usize = 1000;
+const FAM_STRIDE: usize = 100;
+/// NAME_MAX of the file systems the scratch directory can be on (tmpfs, ext4, xfs, btrfs, overlayfs)
+const NAME_MAX: usize = 255;
+
+/// a long endpoint with no period in it (every position is told apart from its neighbours)
+fn long_name(n: usize) -> String {
+    (0..n).map(|i| (b'a' + ((i * 7 + i / 26) % 26) as u8) as char).collect()
+}
+
+fn replace_at(s: &str, pos: usize, c: char) -> String {
+    s.chars().enumerate().map(|(i, x)| if i == pos { c } else { x }).collect()
+}
+
+/// Near-collision families: within one family the keys differ only in the way the family's name
+/// says.  All of them are different keys with different `as_cache_key()` texts and, on the pinned
+/// tree, different files; none contains ':' inside a field (that ambiguity of the key text itself
+/// is C20's finding), none ends in ".tmp", none has an empty / "." / ".." path segment, and no
+/// key text is a directory prefix of another one (checked by `check_universe`).
+fn families() -> &'static Vec<Family> {
+    static F: OnceLock<Vec<Family>> = OnceLock::new();
+    F.get_or_init(|| {
+        let n = |e: &str, r: &str| -> KeySpec { (e.to_string(), r.to_string(), None) };
+        let p = |e: &str, r: &str, p: &str| -> KeySpec { (e.to_string(), r.to_string(), Some(p.to_string())) };
+        let mut fams = vec![];
+        // 0: where one field ends and the next begins / which separator stands between them
+        fams.push(Family { name: "separator", members: vec![
+            n("versions", "us_wow"), p("versions", "us", "wow"), n("versions", "us-wow"), n("versions", "us.wow"),
+            n("versions", "us wow"), n("versions", "us+wow"), n("versions", "uswow"), n("wow_versions", "us"),
+            n("wow-versions", "us"), n("wow versions", "us"), n("wow.versions", "us"), p("versions", "us_wow", ""),
+            n("versions", "us__wow"), n("versions", "us#wow"), n("versions", "us=wow"), n("versions", "us,wow"),
+            n("versions", "us;wow"), n("versions", "us@wow"), n("versions", "us~wow"), n("versions", "us|wow"),
+            n("versions", "us%3Awow"), n("versions", "us\\wow"), p("versions", "us", "wow_"), p("versions", "us_", "wow"),
+            p("wow_versions", "us", ""), n("_wow_versions", "us"), p("", "us_wow", "versions"), n("wowversions", "us"),
+        ] });
+        // 1: punctuation inside one field
+        let punct = ["cdns+bgdl", "cdns#bgdl", "cdns bgdl", "cdns_bgdl", "cdns-bgdl", "cdns.bgdl", "cdnsbgdl", "cdns%2Bbgdl",
+            "cdns++bgdl", "cdns+bgdl+", "+cdns+bgdl", "cdns&bgdl", "cdns*bgdl", "cdns?bgdl", "cdns!bgdl", "cdns$bgdl",
+            "cdns'bgdl", "cdns\"bgdl", "cdns(bgdl)", "cdns[bgdl]", "cdns{bgdl}", "cdns<bgdl>", "cdns^bgdl", "cdns`bgdl",
+            "cdns%bgdl", "cdns__bgdl", "cdns_bgdl_", "_cdns_bgdl", "cdns=bgdl", "cdns,bgdl", "cdns;bgdl", "cdns@bgdl", "cdns~bgdl"];
+        fams.push(Family { name: "punctuation", members: punct.iter().map(|e| p(e, "eu", "wow")).collect() });
+        // 2: blanks — which, how many, leading / trailing (and the trailing period some systems drop)
+        let blanks = ["summary v1", "summary_v1", "summary  v1", "summary\tv1", "summary\nv1", "summary\u{a0}v1", "summaryv1",
+            " summary v1", "summary v1 ", "summary v1  ", "summary\rv1", "summary\u{2003}v1", "summary\u{200b}v1", "summary v1\n",
+            "summary v1.", "summary v1\t", "\tsummary v1", "summary%20v1", "summary+v1", "summary\u{3000}v1", "summary\u{2028}v1",
+            "summary-v1", "summary.v1", "  summary v1"];
+        fams.push(Family { name: "blanks", members: blanks.iter().map(|e| n(e, "us")).collect() });
+        // 3: letter case, in each field
+        fams.push(Family { name: "case", members: vec![
+            n("Summary", "us"), n("summary", "us"), n("SUMMARY", "us"), n("sUMMARY", "us"), n("summarY", "us"), n("summary", "US"),
+            n("summary", "Us"), n("summary", "uS"), p("summary", "us", "WoW"), p("summary", "us", "wow"), p("summary", "us", "WOW"),
+            p("Summary", "us", "wow"), p("summary", "US", "wow"), p("SUMMARY", "US", "WOW"), p("summary", "us", "Wow"),
+        ] });
+        // 4: Unicode look-alikes, normalisation forms, case-folding specials, and what lossy
+        // conversions to ASCII turn them into
+        let uni = ["versions", "v\u{435}rsions", "versi\u{43e}ns", "\u{ff56}ersions", "ver\u{17f}ions", "v\u{e9}rsions", "ve\u{301}rsions",
+            "v?rsions", "v_rsions", "v__rsions", "vrsions", "vers\u{131}ons", "vers\u{130}ons", "versions\u{200d}", "versions\u{feff}",
+            "_ersions", "___ersions", "?ersions", "ersions", "pro\u{fb01}le", "profile", "pro_le", "pro___le", "prole",
+            "stra\u{df}e", "strasse", "STRASSE", "stra\u{1e9e}e", "VERSIONS", "\u{212a}ey", "Key", "key", "versions\u{301}", "ve_rsions", "ve__rsions",
+            "v\u{fffd}rsions", "v%D0%B5rsions", "verSions"];
+        fams.push(Family { name: "unicode", members: uni.iter().map(|e| n(e, "kr")).collect() });
+        // 5: path separators inside the endpoint ("products/wow" is a stock endpoint shape) and
+        // what replaces them
+        let paths = ["products/wow", "products_wow", "products\\wow", "products wow", "products%2Fwow", "products-wow", "products.wow",
+            "productswow", "products|wow", "Products/wow", "products/Wow", "products/wow_", "products/wow ", "products/wow.", "products__wow",
+            "products\u{2215}wow", "products\u{2044}wow", "products\u{ff0f}wow", "products/wow_versions", "products_wow_versions", "products/wow-versions"];
+        fams.push(Family { name: "path", members: paths.iter().map(|e| n(e, "tw")).collect() });
+        // 6: long names that differ only far from one end, or only in length; key text =
+        // "ribbit:cn:" (10 bytes) + endpoint.  Up to 251 bytes the name and its temporary name
+        // (+ ".tmp") fit NAME_MAX; the longer ones are for the memory cache only (`disk_ok`).
+        let mut long: Vec<KeySpec> = vec![];
+        for t in [32usize, 63, 64, 65, 100, 101, 127, 128, 129, 143, 144, 199, 200, 201, 240, 250, 251] {
+            long.push(n(&long_name(t - 10), "cn"));
+        }
+        let full = long_name(241);
+        for c in ['A', 'B'] {
+            long.push(n(&replace_at(&full, 240, c), "cn")); // last character
+            long.push(n(&replace_at(&full, 0, c), "cn"));   // first character
+            long.push(n(&replace_at(&full, 120, c), "cn")); // middle
+            long.push(n(&replace_at(&full, 60, c), "cn"));
+            long.push(n(&replace_at(&full, 200, c), "cn"));
+        }
+        for t in [252usize, 255, 256, 257, 300, 1000, 5000] {
+            let l = long_name(t - 10);
+            long.push(n(&l, "cn"));
+            if t >= 300 {
+                for c in ['A', 'B'] {
+                    long.push(n(&replace_at(&l, t - 11, c), "cn"));
+                }
+                long.push(n(&replace_at(&l, 260, 'A'), "cn"));
+            }
+        }
+        fams.push(Family { name: "long", members: long });
+        for f in &fams {
+            assert!(f.members.len() >= 2 && f.members.len() <= FAM_STRIDE, "family {} has {} members", f.name, f.members.len());
+        }
+        fams
+    })
+}
+
+fn key_spec(n: usize) -> KeySpec {
+    if n >= FAM_BASE {
+        let (f, m) = ((n - FAM_BASE) / FAM_STRIDE, (n - FAM_BASE) % FAM_STRIDE);
+        if let Some(spec) = families().get(f).and_then(|fam| fam.members.get(m)) {
+            return spec.clone();
+        }
+    }
+    if n % 3 == 2 { (format!("e{n}"), "eu".to_string(), Some("wow".to_string())) } else { (format!("k{n}"), "us".to_string(), None) }
+}
+
 fn key(n: usize) -> RibbitKey {
-    if n % 3 == 2 { RibbitKey::with_product(format!("e{n}"), "eu", "wow") } else { RibbitKey::new(format!("k{n}"), "us") }
+    match key_spec(n) {
+        (e, r, Some(p)) => RibbitKey::with_product(e, r, p),
+        (e, r, None) => RibbitKey::new(e, r),
+    }
+}
+
+/// the key text as the key types document it (`ribbit:{region}[:{product}]:{endpoint}`), written
+/// out by the harness itself: used for messages and for the self-check of the key universe only
+fn key_text(n: usize) -> String {
+    match key_spec(n) {
+        (e, r, Some(p)) => format!("ribbit:{r}:{p}:{e}"),
+        (e, r, None) => format!("ribbit:{r}:{e}"),
+    }
+}
+
+/// printable form for messages: ASCII with escapes, long names shortened
+fn key_show(n: usize) -> String {
+    let t = key_text(n);
+    let esc: String = t.escape_default().to_string();
+    if t.len() > 90 {
+        let cs: Vec<char> = t.chars().collect();
+        let head: String = cs[..28].iter().collect();
+        let tail: String = cs[cs.len() - 24..].iter().collect();
+        format!("#{n} \"{}…{}\" ({} bytes)", head.escape_default(), tail.escape_default(), t.len())
+    } else {
+        format!("#{n} \"{esc}\"")
+    }
+}
+
+/// can the disk cache store this key on a file system with NAME_MAX = 255?  Every path segment of
+/// the key text and the temporary name `write_file` derives from the last one have to fit.
+fn disk_ok(n: usize) -> bool {
+    let t = key_text(n);
+    let segs: Vec<&str> = t.split('/').collect();
+    let last = segs[segs.len() - 1];
+    let tmp = std::path::Path::new(last).with_extension("tmp");
+    segs.iter().all(|s| s.len() <= NAME_MAX) && tmp.as_os_str().len() <= NAME_MAX
+}
+
+/// the `refuse=` list of a disk history over these keys
+fn refused(keys: &[usize], disk: bool) -> Vec<usize> {
+    let mut r: Vec<usize> = keys.iter().copied().filter(|k| disk && !disk_ok(*k)).collect();
+    r.sort();
+    r.dedup();
+    r
+}
+
+fn begin_line(b: &str, keys: &[usize]) -> String {
+    let r = refused(keys, b.starts_with("begin disk"));
+    if r.is_empty() { b.to_string() } else { format!("{b} refuse={}", r.iter().map(|k| k.to_string()).collect::<Vec<_>>().join(",")) }
+}
+
+fn family_ids(f: usize) -> Vec<usize> {
+    (0..families()[f].members.len()).map(|m| FAM_BASE + FAM_STRIDE * f + m).collect()
+}
+
+/// self-check of the generator (not of the code under test): the universe consists of pairwise
+/// different key texts that the pinned `get_file_path` maps to pairwise different files
+fn check_universe() {
+    let mut ids: Vec<usize> = (0..FAM_BASE).collect();
+    for f in 0..families().len() { ids.extend(family_ids(f)); }
+    let mut seen: BTreeMap<String, usize> = BTreeMap::new();
+    for &i in &ids {
+        let t = key_text(i);
+        if let Some(j) = seen.insert(t.clone(), i) {
+            panic!("key universe: #{i} and #{j} have the same text {t:?}");
+        }
+    }
+    for (t, &i) in &seen {
+        assert!(!t.to_ascii_lowercase().ends_with(".tmp"), "key universe: #{i} ends in .tmp");
+        assert!(!t.starts_with('/') && !t.contains('\0'), "key universe: #{i}");
+        let segs: Vec<&str> = t.split('/').collect();
+        for s in &segs {
+            assert!(!s.is_empty() && *s != "." && *s != "..", "key universe: #{i} has a degenerate path segment");
+        }
+        for cut in 1..segs.len() {
+            let prefix = segs[..cut].join("/");
+            assert!(!seen.contains_key(&prefix), "key universe: {prefix:?} is a key and a directory of #{i}");
+        }
+    }
 }
 
 /// spin until both clocks the caches read have moved, so consecutive operations never share a
@@ -156,7 +387,6 @@ struct Case {
     rt: tokio::runtime::Runtime,
     cache: Option<Cache>,
     dir: Option<tempfile::TempDir>,
-    sub: Option<usize>,
     epoch: u32,
     /// the reference map: what an ideal unbounded cache holds (short entries = already expired)
     refmap: BTreeMap<usize, RefEntry>,
@@ -181,10 +411,10 @@ fn temp_root() -> tempfile::TempDir {
 }
 
 impl Case {
-    fn begin(s: &mut Session, cfg: Cfg, sub: Option<usize>, salt: u64) -> Case {
+    fn begin(s: &mut Session, cfg: Cfg, salt: u64) -> Case {
         let rt = tokio::runtime::Builder::new_current_thread().enable_all().build().expect("rt");
         let mut c = Case {
-            rng_short: salt, cfg, rt, cache: None, dir: None, sub, epoch: 0, refmap: BTreeMap::new(),
+            rng_short: salt, cfg, rt, cache: None, dir: None, epoch: 0, refmap: BTreeMap::new(),
             last_put: BTreeMap::new(), lines: vec![], reported: BTreeSet::new(), nontrivial: BTreeSet::new(),
             o_gets: 0, o_hits: 0,
         };
@@ -203,7 +433,7 @@ impl Case {
                 self.dir = Some(temp_root());
             }
             let mut dc = DiskCacheConfig::new(self.dir.as_ref().unwrap().path().join("cache"));
-            dc = match self.sub { Some(l) => dc.with_subdirectories(true, l), None => dc.with_subdirectories(false, 0) };
+            dc = match self.cfg.sub { Some(l) => dc.with_subdirectories(true, l), None => dc.with_subdirectories(false, 0) };
             dc.default_ttl = Some(if self.cfg.dshort { SHORTS[3] } else { LONG });
             let c = if self.cfg.cleanup {
                 dc.cleanup_interval = CLEANUP_INTERVAL;
@@ -380,14 +610,18 @@ impl Case {
                             _ if other && !latest => ("get-other-key", "another key's value is served"),
                             _ => ("get-replaced", "a value that is not the most recent put for this key is served"),
                         };
-                        self.fail(s, sig, format!("get {k} -> {} bytes {}: {why}", v.len(), hex(&v[..v.len().min(12)])));
+                        // name the keys involved: the key read and every other key whose latest put stored these bytes
+                        let owners: Vec<String> = self.last_put.iter().filter(|(k2, v2)| *k2 != k && **v2 == v && v.len() >= 3).map(|(k2, _)| key_show(*k2)).take(4).collect();
+                        let whose = if owners.is_empty() { String::new() } else { format!("; these bytes are the latest put of key {}", owners.join(", ")) };
+                        let mine = match &re { Some(e) if !e.short => format!("; the reference map holds {} bytes {} for the key read", e.val.len(), hex(&e.val[..e.val.len().min(12)])), Some(_) => "; the key read holds an ended-TTL value".to_string(), None => "; the key read is not stored".to_string() };
+                        self.fail(s, sig, format!("get {k} = key {} -> {} bytes {}: {why}{whose}{mine}", key_show(*k), v.len(), hex(&v[..v.len().min(12)])));
                     }
                     (Ok(None), Some(e)) if !e.short && disk => {
-                        self.fail(s, "disk-lost-value", format!("get {k} -> none although the value was put with a long TTL and never removed (epoch of put {}, now {})", e.epoch, self.epoch));
+                        self.fail(s, "disk-lost-value", format!("get {k} = key {} -> none although the value was put with a long TTL and never removed (epoch of put {}, now {})", key_show(*k), e.epoch, self.epoch));
                     }
                     (Ok(None), Some(e)) if e.short => { self.refmap.remove(k); self.nontrivial.insert("expiry-sweep"); s.tally("get.expired"); }
                     (Ok(None), _) => { s.tally("get.miss"); }
-                    (Err(_), _) => self.fail(s, "get-error", format!("get {k} -> Err")),
+                    (Err(_), _) => self.fail(s, "get-error", format!("get {k} = key {} -> Err", key_show(*k))),
                 }
             }
             Op::Contains(k) => {
@@ -403,7 +637,7 @@ impl Case {
                     if revived {
                         self.fail(s, "disk-ttl-across-instances", format!("contains {k} -> true for an entry whose TTL ended before this instance was created (expiry times live in memory only)"));
                     } else {
-                        self.fail(s, "contains-phantom", format!("contains {k} -> true for a key the reference map does not hold live"));
+                        self.fail(s, "contains-phantom", format!("contains {k} = key {} -> true for a key the reference map does not hold live", key_show(*k)));
                     }
                 }
                 // the memory cache sweeps an expired entry on contains; the disk cache does not
@@ -589,18 +823,23 @@ fn gen_case(rng: &mut Rng, s: &mut Session, disk: bool, nops: usize) {
         policy: if disk { EvictionPolicy::Lru } else { rng.pick(&pols).clone() },
         dshort: rng.chance(1, 8),
         cleanup: if disk { rng.chance(1, 5) } else { rng.chance(1, 4) },
+        sub: None,
+        refuse: vec![],
     };
-    let sub = if disk && rng.chance(1, 2) { Some(rng.range(1, 2) as usize) } else { None };
-    // key population: usually larger than the capacity
+    let cfg = Cfg { sub: if disk && rng.chance(1, 2) { Some(rng.range(1, 3) as usize) } else { None }, ..cfg };
+    // key population: usually larger than the capacity; at least two keys of one near-collision
+    // family whenever there are two keys at all
     let pop = if disk { rng.range(1, 12) as usize } else if rng.chance(1, 6) { rng.range(1, cfg.max as u64) as usize } else { cfg.max + 1 + rng.below(cfg.max as u64 + 4) as usize };
+    let keys = population(rng, s, pop, disk);
+    let cfg = Cfg { refuse: refused(&keys, disk), ..cfg };
     let salt = rng.next();
-    let mut case = Case::begin(s, cfg.clone(), sub, salt);
+    let mut case = Case::begin(s, cfg.clone(), salt);
     let mut seq = 0u32;
     // op mix varies per case so that some histories fill up quickly and others churn
     let put_w = rng.range(25, 60);
     let short_w = *rng.pick(&[0u64, 10, 25, 50]);
     for _ in 0..nops {
-        let k = rng.below(pop as u64) as usize;
+        let k = keys[rng.below(pop as u64) as usize];
         let x = rng.below(100);
         let op = if x < put_w {
             let v = value(rng, &mut seq, &cfg);
@@ -622,10 +861,45 @@ fn gen_case(rng: &mut Rng, s: &mut Session, disk: bool, nops: usize) {
     // closing sweep: every key is read, then the figures are asked for explicitly
     if disk && rng.chance(1, 2) { case.apply(s, &Op::Reopen); }
     if cfg.cleanup { case.apply(s, &Op::Cleanup); case.apply(s, &Op::Size); }
-    for k in 0..pop { case.apply(s, &Op::Get(k)); }
+    for &k in &keys { case.apply(s, &Op::Get(k)); }
     case.apply(s, &Op::Size);
     case.apply(s, &Op::Stats);
     case.finish(s);
+}
+
+/// `n` different key numbers.  With two or more keys, between 2 and n of them are members of one
+/// near-collision family (sometimes two families): a window of neighbours in the family table (the
+/// closest variants stand next to each other) or a random subset.  The rest are plain keys.
+fn population(rng: &mut Rng, s: &mut Session, n: usize, disk: bool) -> Vec<usize> {
+    let mut ids: Vec<usize> = vec![];
+    if n >= 2 {
+        let nf = if n >= 5 && rng.chance(1, 3) { 2 } else { 1 };
+        let quota = rng.range(2, n as u64) as usize;
+        for j in 0..nf {
+            let f = rng.below(families().len() as u64) as usize;
+            // names the file system refuses (disk cache): one candidate in four stays in
+            let cands: Vec<usize> = family_ids(f).into_iter().filter(|i| (!disk || disk_ok(*i) || i % 4 == 0) && !ids.contains(i)).collect();
+            let want = if nf == 2 && j == 0 { (quota / 2).max(2) } else { quota.saturating_sub(ids.len()) };
+            let take = want.min(cands.len());
+            if take == 0 { continue; }
+            s.tally(&format!("keys.family.{}", families()[f].name));
+            if rng.chance(1, 2) {
+                let start = rng.below(cands.len() as u64) as usize;
+                for t in 0..take { ids.push(cands[(start + t) % cands.len()]); }
+            } else {
+                let mut c = cands.clone();
+                for _ in 0..take {
+                    let i = rng.below(c.len() as u64) as usize;
+                    ids.push(c.swap_remove(i));
+                }
+            }
+        }
+    }
+    s.tally_n("keys.near-collision", ids.len() as u64);
+    let mut p = 0;
+    while ids.len() < n { ids.push(p); p += 1; }
+    s.tally_n("keys.plain", p as u64);
+    ids
 }
 
 /// `validate mem <max> <bytes|none> <cleanup_zero>` / `validate disk <max_files> <bytes|none>
@@ -679,8 +953,7 @@ fn run_script(s: &mut Session, lines: &[String]) {
         } else if toks.first() == Some(&"begin") {
             if let Some(c) = cur.take() { c.finish(s); }
             match Cfg::parse(&toks) {
-                // sub-directory layout is not part of the protocol: replay without
-                Some(cfg) => cur = Some(Case::begin(s, cfg, None, 7)),
+                Some(cfg) => cur = Some(Case::begin(s, cfg, 7)),
                 None => s.line(l, "bad-op"),
             }
         } else if let Some(c) = cur.as_mut() {
@@ -692,6 +965,77 @@ fn run_script(s: &mut Session, lines: &[String]) {
     if let Some(c) = cur.take() { c.finish(s); }
 }
 
+/// Near-collision families as a whole: every member is stored with its own value, read, every other
+/// one removed, read, stored again, (disk: re-created,) read, a third of them replaced by ended-TTL
+/// values, probed, read, cleared, read — on the memory cache and on the flat and the hashed disk
+/// layouts (with and without background tasks).  One history per family first (short replays),
+/// then one over all families together (variants of one word sit in different families).
+fn family_walks(s: &mut Session) {
+    let val = |round: u8, id: usize| -> String {
+        let mut v = vec![round, (id >> 8) as u8, id as u8, 0x5a];
+        v.extend(std::iter::repeat_n(0xC0 | round, id % 5));
+        hex(&v)
+    };
+    let begins = ["begin mem max=1000 bytes=none policy=lru dttl=long", "begin disk dttl=long", "begin disk dttl=long sub=1",
+        "begin disk dttl=long sub=2", "begin diskc dttl=long sub=3", "begin memc max=1000 bytes=none policy=lfu dttl=long"];
+    let nf = families().len();
+    // neighbours in the family tables two at a time: the shortest possible replay for a confusion
+    // of two keys (store both, read both, remove one, read the other, store it again, read both)
+    for b in ["begin disk dttl=long", "begin disk dttl=long sub=2", "begin mem max=4 bytes=none policy=lru dttl=long"] {
+        let disk = b.starts_with("begin disk");
+        for f in 0..nf {
+            let ids: Vec<usize> = family_ids(f);
+            for w in ids.windows(2) {
+                let (a, c) = (w[0], w[1]);
+                let mut sc = vec![begin_line(b, w), format!("put {a} {} ev=auto", val(1, a)), format!("put {c} {} ev=auto", val(1, c)), format!("get {a}"), format!("get {c}"),
+                    format!("remove {c}"), format!("get {a}"), format!("put {c} {} ev=auto", val(2, c)), format!("get {a}"), format!("get {c}")];
+                if disk { sc.extend(["reopen".to_string(), format!("get {a}"), format!("remove {a}"), format!("get {c}")]); }
+                sc.push("stats".into());
+                run_script(s, &sc);
+                s.tally("case.family-pair");
+            }
+        }
+    }
+    for b in begins {
+        let disk = b.starts_with("begin disk");
+        let task = b.starts_with("begin diskc") || b.starts_with("begin memc");
+        for f in 0..=nf {
+            // f == nf: all families together, interleaved with a few plain keys
+            let ids: Vec<usize> = if f < nf { family_ids(f) } else { (0..nf).flat_map(family_ids).chain(0..6).collect() };
+            let mut sc = vec![begin_line(b, &ids)];
+            for &i in &ids { sc.push(format!("put {i} {} ev=auto", val(1, i))); }
+            for &i in &ids { sc.push(format!("get {i}")); }
+            sc.push("size".into());
+            sc.push("stats".into());
+            for &i in ids.iter().step_by(2) { sc.push(format!("remove {i}")); }
+            for &i in &ids { sc.push(format!("get {i}")); }
+            for &i in ids.iter().step_by(2) { sc.push(format!("putttl {i} {} long ev=auto", val(2, i))); }
+            for &i in ids.iter().rev().step_by(3) { sc.push(format!("put {i} {} ev=auto", val(3, i))); }
+            if disk { sc.push("reopen".into()); }
+            for &i in &ids { sc.push(format!("get {i}")); }
+            for &i in ids.iter().skip(1).step_by(3) { sc.push(format!("putttl {i} {} short ev=auto", val(4, i))); }
+            for &i in &ids { sc.push(format!("contains {i}")); }
+            if task { sc.push("cleanup".into()); }
+            for &i in &ids { sc.push(format!("get {i}")); }
+            if disk {
+                // a new instance finds the files only: remove through the fallback path, then read
+                sc.push("reopen".into());
+                for &i in ids.iter().skip(2).step_by(4) { sc.push(format!("remove {i}")); }
+                for &i in &ids { sc.push(format!("get {i}")); }
+            }
+            sc.push("size".into());
+            sc.push("stats".into());
+            sc.push("clear".into());
+            for &i in ids.iter().take(8) { sc.push(format!("get {i}")); }
+            sc.push(format!("put {} {} ev=auto", ids[0], val(5, ids[0])));
+            for &i in ids.iter().take(8) { sc.push(format!("get {i}")); }
+            sc.push("size".into());
+            run_script(s, &sc);
+            s.tally("case.family-walk");
+        }
+    }
+}
+
 fn directed(s: &mut Session) {
     let scripts: Vec<Vec<String>> = vec![
         // configuration validation
@@ -701,6 +1045,17 @@ fn directed(s: &mut Session) {
         vec!["begin mem max=3 bytes=none policy=lru dttl=long".into(), "frobnicate 1".into(), "reopen".into(), "get x".into()],
     ];
     for sc in scripts { run_script(s, &sc); }
+    // the layout token of the disk cache: canonical 1..7 only
+    for t in ["sub=0", "sub=8", "sub=01", "sub=x", "sub=", "sub=2 x", "xsub=2"] {
+        run_script(s, &[format!("begin disk dttl=long {t}"), "get 1".to_string()]);
+    }
+    for t in ["refuse=", "refuse=-", "refuse=01", "refuse=1,,2", "refuse=1,x", "sub=2 refuse=", "refuse=1 sub=2", "sub=2 refuse=1 x", "sub=0 refuse=1"] {
+        run_script(s, &[format!("begin diskc dttl=short {t}"), "size".to_string()]);
+    }
+    // a listed key that the file system does accept: only the model would refuse it (never
+    // generated; the line documents that `refuse=` is an input of the model)
+    run_script(s, &["begin disk dttl=long sub=1 refuse=5".to_string(), "get 5".to_string(), "put 6 0102 ev=auto".to_string(), "get 6".to_string()]);
+    family_walks(s);
     // put_with_ttl over an entry whose TTL has ended (not yet swept): one entry, the new size, the
     // new value; then hit / miss figures. Memory (with and without cleanup task) and disk.
     for b in ["begin mem max=3 bytes=none policy=lru dttl=long", "begin memc max=3 bytes=40 policy=fifo dttl=long", "begin disk dttl=long"] {
@@ -759,8 +1114,9 @@ fn main() {
     let args = Args::parse();
     quiet_panics();
     let mut s = Session::new(&args.out);
-    s.rule = "seeded histories of put / put_with_ttl / get / contains / remove / clear / size / stats (+ reopen for the disk cache) over all five eviction policies, max_entries 1..30, max_memory_bytes none/1/2/10/40/100/300/1000, value sizes 0 .. above the byte limit, key populations above capacity, TTL classes long (1 h) / short (0 ns–1 ms followed by a real sleep > 3×TTL); a quarter of the memory histories on MemoryCache::new_with_cleanup with ticks of the background task (`cleanup`); stats() compared in five figures (entries, bytes, get / hit / miss counts); plus the grid of MemoryCacheConfig / DiskCacheConfig::validate inputs; evaluations = histories; non-trivial = the history reached an eviction, an expiry sweep, a short TTL, a reopen or a cleanup tick; distinct = canonical request text of the whole history".into();
+    s.rule = "seeded histories of put / put_with_ttl / get / contains / remove / clear / size / stats (+ reopen for the disk cache) over all five eviction policies, max_entries 1..30, max_memory_bytes none/1/2/10/40/100/300/1000, value sizes 0 .. above the byte limit, key populations above capacity in which (from two keys on) at least two keys belong to one near-collision family (different keys that differ only in a separator / field boundary, punctuation, blanks, letter case, a Unicode look-alike or normalisation form, a path separator, or far into a 32..251-byte name; memory cache also 252..5000-byte names), disk layouts flat and hashed sub-directories (1..3 levels), directed walks over every whole family on the memory cache and every disk layout, TTL classes long (1 h) / short (0 ns–1 ms followed by a real sleep > 3×TTL); a quarter of the memory histories on MemoryCache::new_with_cleanup with ticks of the background task (`cleanup`); stats() compared in five figures (entries, bytes, get / hit / miss counts); plus the grid of MemoryCacheConfig / DiskCacheConfig::validate inputs; evaluations = histories; non-trivial = the history reached an eviction, an expiry sweep, a short TTL, a reopen or a cleanup tick; distinct = canonical request text of the whole history".into();
     let mut rng = Rng::new(args.seed);
+    check_universe();
 
     if let Some(p) = &args.replay {
         let lines = read_case(p);
